@@ -104,16 +104,27 @@ def run_cases(mod, pid, bdir, model, cases, modes, stats=None):
     return out, exps
 
 
-def shrink_failure(mod, pid, bdir, model, case, mode, rounds=4):
+def _sig(bad):
+    return bad[0].split(':')[0][:40]
+
+
+def shrink_failure(mod, pid, bdir, model, case, mode, rounds=6, sig=None):
+    """greedy shrinking that keeps the kind of failure (same leading message)"""
     if not hasattr(mod, 'shrink'):
         return case
     cur = case
+    if sig is None:
+        f0, _ = run_cases(mod, pid, bdir, model, [case], [mode])
+        if not f0:
+            return case
+        sig = _sig(f0[0][2])
     for _ in range(rounds):
         cands = mod.shrink(cur)
         if not cands:
             break
         cands = cands[:60]
         fails, _ = run_cases(mod, pid, bdir, model, cands, [mode])
+        fails = [f for f in fails if _sig(f[2]) == sig]
         if not fails:
             break
         cur = cands[fails[0][0]]
@@ -185,7 +196,7 @@ def run_check(pid, tier, seed, replay=None):
         if key in reported or len(violations) >= 5:
             continue
         reported.add(key)
-        small = shrink_failure(mod, pid, bdir, model, cases[i], mode)
+        small = shrink_failure(mod, pid, bdir, model, cases[i], mode, sig=_sig(bad))
         # recompute the mismatch on the shrunk case for the replay
         f2, e2 = run_cases(mod, pid, bdir, model, [small], [mode])
         if f2:
